@@ -313,7 +313,8 @@ func (r *AvPacket2RtmpRemuxer) FeedAvPacket(pkt base.AvPacket) {
 					break
 				}
 				length := frameLen - 5 // -7+2
-				if length >= 7 {
+				// 注意，合法的aac帧可以很短（比如单声道静音帧只有4字节），只要adts头后面有数据就转发
+				if length > 2 {
 					ts := pkt.Timestamp
 					if k > 0 {
 						if ctx, err := aac.NewAdtsHeaderContext(data[:7]); err == nil {
